@@ -63,7 +63,7 @@ func (cr *concRun) idOf(b []byte, ok bool) int32 {
 // one transaction of a client; shape selects the anomaly pattern
 func (cr *concRun) oneTxn(g int, r *rand.Rand, shape string) {
 	nk := len(cr.keys)
-	update := shape != "audit"
+	update := shape != "audit" && shape != "longaudit" && shape != "fullaudit"
 	rec := &hTxn{ID: int(cr.nextTxn.Add(1)), Client: g, Update: update}
 	call := func(f func()) (int64, int64) {
 		eng.H.InFlight.Add(1)
@@ -129,11 +129,28 @@ func (cr *concRun) oneTxn(g int, r *rand.Rand, shape string) {
 		} else {
 			set(b, false)
 		}
+	case "fullaudit": // read-only, every key
+		for k := 0; k < nk; k++ {
+			get(k)
+		}
+		end = "discard"
 	case "audit": // read-only, several keys
 		for _, k := range r.Perm(nk)[:1+r.Intn(nk)] {
 			get(k)
 			if r.Intn(3) == 0 {
 				pause()
+			}
+		}
+		end = "discard"
+	case "longaudit": // long-lived reader: the same keys read again after many other commits
+		ks := r.Perm(nk)[:1+r.Intn(nk)]
+		for _, k := range ks {
+			get(k)
+		}
+		for round := 0; round < 2+r.Intn(3); round++ {
+			time.Sleep(time.Duration(1+r.Intn(8)) * time.Millisecond)
+			for _, k := range ks {
+				get(k)
 			}
 		}
 		end = "discard"
@@ -236,7 +253,7 @@ func (cr *concRun) closureTxn(g int, r *rand.Rand, rec *hTxn) {
 	cr.mu.Unlock()
 }
 
-var concShapes = []string{"closure", "rmw", "skew", "audit", "blind", "multi", "random", "random", "audit"}
+var concShapes = []string{"closure", "longaudit", "rmw", "skew", "audit", "blind", "multi", "random", "random", "audit"}
 
 type concOutcome struct {
 	txns        []*hTxn
@@ -309,10 +326,16 @@ func runConcWorkload(c core.Case, res *core.Result) *concOutcome {
 	}
 	wg.Wait()
 	if out.panicked == "" {
-		// second phase: a final reader after everything finished sees the last committed state
-		cr.oneTxn(G, r, "audit")
-		if p := eng.Safely(func() { cr.db.Close() }); p != "" {
-			out.panicked = "Close: " + p
+		// second phase: a final reader after everything finished sees the last committed state,
+		// and so does a reader after Close and Open (same history, same logical clock)
+		if p := eng.Safely(func() {
+			cr.oneTxn(G, r, "fullaudit")
+			cr.db.Close()
+			cr.db = eng.Open(dir, cfg)
+			cr.oneTxn(G+1, r, "fullaudit")
+			cr.db.Close()
+		}); p != "" {
+			out.panicked = "second phase (audit, Close, Open, audit, Close): " + p
 		}
 	}
 	out.txns = cr.txns
